@@ -130,8 +130,13 @@ def apply_op(state: dict, op, ti, oi, typed: bool = False) -> dict:
     return apply_block(state, op.get("muts", []), ti, oi)
 
 
-def serial_results(init: dict, tasks, typed: bool = False) -> set[str]:
-    """Final states of every interleaving that respects per-task order (forward DP over the position lattice)."""
+def serial_results(init: dict, tasks, typed: bool = False, status=None) -> set[str]:
+    """Final states of every interleaving that respects per-task order (forward DP over the position lattice).
+
+    status[ti][oi] (optional): "done" = the call returned normally, the operation is part of every serial witness;
+    "skip" = the call was cancelled and provably wrote nothing (did not happen: identity); "maybe" = the call was
+    cancelled and the harness cannot tell whether it had obtained the lock (both outcomes accepted for that one operation).
+    """
     lens = tuple(len(t) for t in tasks)
     start = tuple(0 for _ in tasks)
     layer = {start: {canon(init)}}
@@ -139,12 +144,20 @@ def serial_results(init: dict, tasks, typed: bool = False) -> set[str]:
         nxt: dict[tuple, set[str]] = {}
         for pos in sorted(layer):
             for s in sorted(layer[pos]):
-                state = json.loads(s)
+                state = None
                 for ti in range(len(tasks)):
                     if pos[ti] < lens[ti]:
                         oi = pos[ti]
                         npos = pos[:ti] + (oi + 1,) + pos[ti + 1 :]
-                        nxt.setdefault(npos, set()).add(canon(apply_op(state, tasks[ti][oi], ti, oi, typed)))
+                        stt = status[ti][oi] if status is not None else "done"
+                        out = nxt.setdefault(npos, set())
+                        if stt != "done":
+                            out.add(s)
+                            if stt == "skip":
+                                continue
+                        if state is None:
+                            state = json.loads(s)
+                        out.add(canon(apply_op(state, tasks[ti][oi], ti, oi, typed)))
         layer = nxt
     return layer.get(lens, {canon(init)})
 
@@ -153,9 +166,15 @@ class C20(Prop):
     id = "C20"
     rule = (
         "case = 2-4 concurrent tasks, each 1-3 operations on one state store of one run: set(path, v) with path in cnt,log,a,b,n.x,n.y; "
-        "set_state(whole new state); edit_state{read early or late; 0-2 suspension points, each 1-4 x asyncio.sleep(0) or a harness gate; "
+        "set_state(whole new state); edit_state{read early or late; 0-2 suspension points, each 1-4 x asyncio.sleep(0), a harness gate or "
+        "asyncio.sleep(1-4 virtual ms); "
         "write f(read): increments, appends, puts}; plus a generated schedule (0-3 loop yields before every operation, the order in which the "
-        "harness opens the gates and how long it lets the loop run in between) and a generated initial state (row absent / some keys). The state "
+        "harness opens the gates, how long it lets the loop run in between, and 0/2/6 virtual ms before it opens every remaining gate) and a "
+        "generated initial state (row absent / some keys). Cancellation dimension (half of the cases; there every call has a 1-in-2 chance): "
+        "the caller gives up on a call at a generated instant -- either the call runs as its own task that is task.cancel()ed 1-6 loop yields "
+        "after it was started, or it is wrapped in asyncio.wait_for(call, timeout=1-3 virtual ms); the task then goes on with its next "
+        "operations, so a call can be cancelled while it is queued for the store lock behind another task's suspended edit_state block (or "
+        "inside its own block, before it wrote anything) and later writes follow while that block is still open. The state "
         "model is generated too: DictState, or a typed pydantic state with inheritance (store state type C20Child(C20Base): parent fields a, log; "
         "child-only fields b, cnt, n; all with defaults) -- typed cases additionally issue the documented parent-type form "
         "set_state(C20Base(a=.., log=..)), whose serial meaning is 'parent fields replaced, child-only fields kept'. Every "
@@ -163,11 +182,18 @@ class C20(Prop):
         "one SqliteStateStore object obtained from SqliteWorkflowStore.create_state_store(run_id) (the server creates and caches exactly one "
         "store object per run, so per-task store objects are not generated). Oracle: the observed final state (read back through get_state) "
         "must equal the final state of at least one serial execution of the same operations that respects each task's own order, every "
-        "edit_state block counting as one atomic operation (all interleavings enumerated by a forward DP over task positions). Non-trivial = "
+        "edit_state block counting as one atomic operation (all interleavings enumerated by a forward DP over task positions). A call that "
+        "returned normally is a completed operation and is part of every serial witness (so a completed write can never be missing); a call that "
+        "ended in CancelledError/TimeoutError is not one of 'the same operations' if it provably wrote nothing (an edit_state call whose block "
+        "never ran or was cancelled before its first write: identity in the reference), and may or may not have happened when the harness "
+        "cannot tell (cancelled set/set_state: both outcomes accepted for that one operation, per backend run). Non-trivial = "
         "on at least one backend, while an edit_state block was suspended between its read and its write, another task invoked "
         "set/set_state/edit_state on the same store (whether that call may complete inside the window is exactly what the store decides). "
         "Class labels parent_set_state_behind_open_block / ..._behind_child_field_writer count the typed cases where a parent-type set_state was "
-        "invoked while another task's block (one that writes a child-only field) held the store lock."
+        "invoked while another task's block (one that writes a child-only field) held the store lock; cancelled_call / "
+        "cancelled_by_wait_for_timeout / cancelled_inside_own_block / cancelled_while_queued_behind_open_block count the cancellation shapes per "
+        "backend, and write_follows_cancelled_waiter_in_open_block counts the cases where, after a queued call was cancelled behind an open "
+        "block, another write was already queued or was invoked while that same block was still open."
     )
     assumptions = [
         "single event loop; InMemoryStateStore and SqliteStateStore are thread-free (the sqlite3 calls run synchronously on the loop, no "
@@ -179,7 +205,13 @@ class C20(Prop):
         "one store object per run per backend, as _ServerInternalRunAdapter.get_state_store caches it; SQLite store in default (multi-connection) "
         "mode on a per-case temp directory (on /dev/shm when available, only to avoid fsync cost)",
         "only the final state is judged (the property's observe_at); cross-task real-time order is not imposed on the serial witness",
-        "operations never raise by construction; an operation that raises or never completes is reported under its own violation kind",
+        "operations never raise by construction (the only exceptions are the generated cancellations, caught by the cancelling caller as a "
+        "step would catch TimeoutError); an operation that raises anything else or never completes is reported under its own violation kind",
+        "inside a block every write to the state object happens after the block's last suspension point, so a block cancelled at a suspension "
+        "point has written nothing on either store (the in-memory store hands out its live state object); the harness still records whether a "
+        "cancelled block had started writing and then accepts both outcomes",
+        "virtual-time waits (timed suspension, wait_for timeout, gate hold) run on the VLoop clock: timers fire only when no task is runnable, "
+        "in deadline order -- deterministic per case",
     ]
     budgets = {"quick": 1200, "thorough": 2000}
     wall = {"quick": 50.0, "thorough": 480.0}
@@ -199,10 +231,23 @@ class C20(Prop):
 
     def strategy(self, tier):
         pre = st.integers(0, 3)
-        sus = st.one_of(
-            st.tuples(st.just("y"), st.integers(1, 4)).map(list),
-            st.tuples(st.just("g"), st.integers(0, 3)).map(list),
+        sus_y = st.tuples(st.just("y"), st.integers(1, 4)).map(list)
+        sus_g = st.tuples(st.just("g"), st.integers(0, 3)).map(list)
+        # third suspension kind: the block awaits something that takes virtual time (asyncio.sleep(k ms))
+        sus_t = st.tuples(st.just("t"), st.integers(1, 4)).map(list)
+        sus = st.one_of(sus_y, sus_g, sus_y, sus_g, sus_t)
+        # cancellation of an operation by its caller: ["c", n] = the operation runs as its own task that is
+        # task.cancel()ed after n loop yields; ["t", k] = asyncio.wait_for(operation, timeout = k virtual ms)
+        cx_some = st.one_of(
+            st.none(),
+            st.none(),
+            st.none(),
+            st.tuples(st.just("c"), st.integers(1, 6)).map(list),
+            st.tuples(st.just("c"), st.integers(1, 6)).map(list),
+            st.tuples(st.just("t"), st.integers(1, 3)).map(list),
         )
+        # how long (virtual ms) the harness waits after its gate schedule before it opens every remaining gate
+        hold = st.sampled_from([0, 0, 0, 2, 6])
         any_mut = st.one_of(
             st.tuples(st.just("incr"), st.sampled_from(["cnt", "a"])).map(list),
             st.just(["append"]),
@@ -213,7 +258,8 @@ class C20(Prop):
         init = st.one_of(st.none(), st.lists(st.sampled_from(STATE_KEYS), unique=True, max_size=4).map(sorted))
 
         def for_hot(hm):
-            hot, model = hm
+            hot, model, flavor = hm
+            cx = cx_some if flavor == "cancel" else st.none()
             # every case has one "hot" key that most writers touch, so that read-modify-write blocks and plain
             # writes really collide (a lost update is only visible on a key both sides use)
             hot_mut = st.just(["append"] if hot == "log" else ["incr", hot])
@@ -225,24 +271,34 @@ class C20(Prop):
                     "sus": st.lists(sus, min_size=0, max_size=2),
                     "muts": st.lists(mut, min_size=1, max_size=3),
                     "pre": pre,
+                    "cx": cx,
                 }
             )
-            set_ = st.fixed_dictionaries({"k": st.just("set"), "path": st.one_of(st.just(hot), st.just(hot), any_path), "pre": pre})
+            set_ = st.fixed_dictionaries(
+                {"k": st.just("set"), "path": st.one_of(st.just(hot), st.just(hot), any_path), "pre": pre, "cx": cx}
+            )
             set_state = st.fixed_dictionaries(
-                {"k": st.just("set_state"), "keys": st.lists(st.sampled_from(STATE_KEYS), unique=True, max_size=4).map(sorted), "pre": pre}
+                {
+                    "k": st.just("set_state"),
+                    "keys": st.lists(st.sampled_from(STATE_KEYS), unique=True, max_size=4).map(sorted),
+                    "pre": pre,
+                    "cx": cx,
+                }
             )
             if model == "typed":
                 # parent-type form of set_state (merge path): only meaningful on a typed store with an inherited state type
-                pset = st.fixed_dictionaries({"k": st.just("set_state_parent"), "pre": pre})
+                pset = st.fixed_dictionaries({"k": st.just("set_state_parent"), "pre": pre, "cx": cx})
                 op = st.one_of(edit, edit, edit, set_, set_, set_state, pset, pset)
             else:
                 op = st.one_of(edit, edit, edit, set_, set_, set_state)
             tasks = st.lists(st.lists(op, min_size=1, max_size=3), min_size=2, max_size=4)
-            return st.fixed_dictionaries({"model": st.just(model), "init": init, "tasks": tasks, "sched": sched})
+            return st.fixed_dictionaries({"model": st.just(model), "init": init, "tasks": tasks, "sched": sched, "hold": hold})
 
+        # half of the cases have no cancellation at all (every call returns), in the other half every call has a 1-in-2 chance of a generated cancellation
+        flavor = st.sampled_from(["plain", "cancel"])
         # typed cases favour the child-only hot key (a parent-type set_state must keep it)
-        dict_cases = st.tuples(st.sampled_from(["cnt", "a", "log"]), st.just("dict"))
-        typed_cases = st.tuples(st.sampled_from(["cnt", "cnt", "a", "log"]), st.just("typed"))
+        dict_cases = st.tuples(st.sampled_from(["cnt", "a", "log"]), st.just("dict"), flavor)
+        typed_cases = st.tuples(st.sampled_from(["cnt", "cnt", "a", "log"]), st.just("typed"), flavor)
         return st.one_of(dict_cases, typed_cases).flatmap(for_hot)
 
     # ------------------------------------------------------------------ one backend
@@ -272,7 +328,14 @@ class C20(Prop):
             "raised": False,
             "pset_behind_block": False,  # parent-type set_state invoked while another task's block was open
             "pset_behind_child_writer": False,  # ... and that block writes a child-only field
+            "cancelled": [],  # "<ti>.<oi>:<kind>" of every call that ended in cancellation
+            "cancel_in_own_block": False,  # an edit_state call was cancelled while suspended inside its own block
+            "cancel_queued_behind_block": False,  # a call was cancelled before entering, while another task's block was open
+            "write_follows_cancelled_waiter": False,  # ... and, that block still open, another write was queued or invoked later
+            "timed_cancel": False,
         }
+        # per-operation outcome for the serial reference: done / skip (cancelled, wrote nothing) / maybe (cancelled, unknown)
+        status = [["done"] * len(ops) for ops in tasks]
         tmp = None
         try:
             if backend == "memory":
@@ -290,6 +353,9 @@ class C20(Prop):
                 flags = {"open_all": False}
                 open_blocks: set[int] = set()
                 open_ops: dict[int, dict] = {}
+                open_ids: dict[int, tuple] = {}  # task -> (ti, oi) of its open block
+                pending: set[tuple] = set()  # calls invoked and not yet returned / cancelled
+                armed: set[tuple] = set()  # open blocks behind which a queued call has been cancelled
 
                 def gate(g):
                     ev = gates.get(g)
@@ -299,12 +365,14 @@ class C20(Prop):
                             ev.set()
                     return ev
 
-                async def block(ti, oi, op):
+                async def block(ti, oi, op, info):
                     async with store.edit_state() as s:
+                        info["entered"] = True
                         if open_blocks - {ti}:
                             stats["two_blocks_open"] = True
                         open_blocks.add(ti)
                         open_ops[ti] = op
+                        open_ids[ti] = (ti, oi)
                         try:
                             snap = None
                             if op.get("rd") != "late":
@@ -313,11 +381,14 @@ class C20(Prop):
                                 if su[0] == "y":
                                     for _ in range(su[1]):
                                         await asyncio.sleep(0)
+                                elif su[0] == "t":
+                                    await asyncio.sleep(su[1] * 0.001)
                                 else:
                                     await gate(su[1]).wait()
                             if snap is None:
                                 snap = read_all(s)
                             for mi, m in enumerate(op.get("muts", [])):
+                                info["mutated"] = True
                                 if m[0] == "incr":
                                     put(s, m[1], snap.get(m[1], 0) + 1)
                                 elif m[0] == "append":
@@ -327,33 +398,90 @@ class C20(Prop):
                         finally:
                             open_blocks.discard(ti)
                             open_ops.pop(ti, None)
+                            armed.discard(open_ids.pop(ti, None))
+
+                async def call(ti, oi, op, info):
+                    """The store call itself; the CancelledError handler only records where the cancellation landed."""
+                    try:
+                        if op["k"] == "set":
+                            await store.set(op["path"], set_value(op["path"], ti, oi))
+                        elif op["k"] == "set_state":
+                            await store.set_state(make_state(whole_for(op.get("keys", []), ti, oi)))
+                        elif op["k"] == "set_state_parent":
+                            await store.set_state(C20Base(**parent_for(ti, oi)))
+                        else:
+                            await block(ti, oi, op, info)
+                    except asyncio.CancelledError:
+                        if op.get("cx") and not info.get("noted"):
+                            info["noted"] = True
+                            if info["entered"]:
+                                stats["cancel_in_own_block"] = True
+                            else:
+                                others = sorted(open_blocks - {ti})
+                                if others:
+                                    stats["cancel_queued_behind_block"] = True
+                                    armed.update(open_ids[t] for t in others)
+                                    if pending - {(ti, oi)} - set(open_ids.values()):
+                                        stats["write_follows_cancelled_waiter"] = True
+                        raise
 
                 async def run_task(ti, ops):
                     for oi, op in enumerate(ops):
                         for _ in range(op.get("pre", 0)):
                             await asyncio.sleep(0)
-                        if open_blocks - {ti}:
+                        others = sorted(open_blocks - {ti})
+                        if others:
                             stats["contention"] = True
+                            if any(open_ids[t] in armed for t in others):
+                                stats["write_follows_cancelled_waiter"] = True
+                            if op["k"] == "set_state_parent":
+                                stats["pset_behind_block"] = True
+                                if any(child_only_writer(open_ops[t]) for t in others):
+                                    stats["pset_behind_child_writer"] = True
+                        cx = op.get("cx")
+                        info = {"entered": False, "mutated": False}
+                        cancelled = False
+                        pending.add((ti, oi))
                         try:
-                            if op["k"] == "set":
-                                await store.set(op["path"], set_value(op["path"], ti, oi))
-                            elif op["k"] == "set_state":
-                                await store.set_state(make_state(whole_for(op.get("keys", []), ti, oi)))
-                            elif op["k"] == "set_state_parent":
-                                others = sorted(open_blocks - {ti})
-                                if others:
-                                    stats["pset_behind_block"] = True
-                                    if any(child_only_writer(open_ops[t]) for t in others):
-                                        stats["pset_behind_child_writer"] = True
-                                await store.set_state(C20Base(**parent_for(ti, oi)))
+                            if not cx:
+                                await call(ti, oi, op, info)
+                            elif cx[0] == "c":
+                                # the call runs as its own task (a step worker); the caller cancels it n loop yields later
+                                child = asyncio.ensure_future(call(ti, oi, op, info))
+                                try:
+                                    for _ in range(cx[1]):
+                                        if child.done():
+                                            break
+                                        await asyncio.sleep(0)
+                                    child.cancel()
+                                    await child
+                                except asyncio.CancelledError:
+                                    if not child.cancelled():
+                                        child.cancel()
+                                        raise
+                                    cancelled = True
                             else:
-                                await block(ti, oi, op)
+                                try:
+                                    await asyncio.wait_for(call(ti, oi, op, info), timeout=cx[1] * 0.001)
+                                except asyncio.TimeoutError:
+                                    cancelled = True
+                                    stats["timed_cancel"] = True
                         except asyncio.CancelledError:
                             raise
                         except Exception as e:  # noqa: BLE001
                             stats["raised"] = True
                             r.v("operation_raised", backend=backend, op=op["k"], err=f"{type(e).__name__}: {e}"[:120])
                             return
+                        finally:
+                            pending.discard((ti, oi))
+                        if cancelled:
+                            stats["cancelled"].append(f"{ti}.{oi}:{op['k']}")
+                            if op["k"] == "edit" and not info["mutated"]:
+                                # never entered its block, or was cancelled inside it before the first write to the state object
+                                status[ti][oi] = "skip"
+                            else:
+                                status[ti][oi] = "maybe"
+                            continue
                         if open_blocks - {ti}:
                             stats["intruders"].add(op["k"])
 
@@ -364,6 +492,8 @@ class C20(Prop):
                         gate(g).set()
                     for _ in range(3):
                         await asyncio.sleep(0)
+                    if case.get("hold"):
+                        await asyncio.sleep(case["hold"] * 0.001)
                     flags["open_all"] = True
                     for g in sorted(gates):
                         gates[g].set()
@@ -376,9 +506,9 @@ class C20(Prop):
 
             final, quiescent = boot.run_virtual(main)
             if quiescent:
-                r.v("operations_never_completed", backend=backend)
-                return None, stats
-            return final, stats
+                r.v("operations_never_completed", backend=backend, cancelled=stats["cancelled"])
+                return None, stats, status
+            return final, stats, status
         finally:
             if tmp:
                 shutil.rmtree(tmp, ignore_errors=True)
@@ -390,10 +520,20 @@ class C20(Prop):
         tasks = case["tasks"]
         typed = case.get("model", "dict") == "typed"
         init = {k: copy.deepcopy(INIT_VALUES[k]) for k in (case["init"] or [])}
-        expected = serial_results(typed_full(init) if typed else init, tasks, typed)
+        init_full = typed_full(init) if typed else init
+        expected_all_done = serial_results(init_full, tasks, typed)
+        by_status: dict[str, set[str]] = {}
         nontrivial = False
         for backend in BACKENDS:
-            final, stats = self._run_backend(backend, case, init, r)
+            final, stats, status = self._run_backend(backend, case, init, r)
+            if any(x != "done" for row in status for x in row):
+                # cancelled calls: "did not happen" (skip) or "either" (maybe) in the serial reference of THIS backend's run
+                key = canon(status)
+                if key not in by_status:
+                    by_status[key] = serial_results(init_full, tasks, typed, status)
+                expected = by_status[key]
+            else:
+                expected = expected_all_done
             if stats["contention"]:
                 nontrivial = True
                 r.classes.append(f"contention:{backend}")
@@ -403,6 +543,16 @@ class C20(Prop):
                 r.classes.append(f"parent_set_state_behind_open_block:{backend}")
             if stats["pset_behind_child_writer"]:
                 r.classes.append(f"parent_set_state_behind_child_field_writer:{backend}")
+            if stats["cancelled"]:
+                r.classes.append(f"cancelled_call:{backend}")
+            if stats["timed_cancel"]:
+                r.classes.append(f"cancelled_by_wait_for_timeout:{backend}")
+            if stats["cancel_in_own_block"]:
+                r.classes.append(f"cancelled_inside_own_block:{backend}")
+            if stats["cancel_queued_behind_block"]:
+                r.classes.append(f"cancelled_while_queued_behind_open_block:{backend}")
+            if stats["write_follows_cancelled_waiter"]:
+                r.classes.append(f"write_follows_cancelled_waiter_in_open_block:{backend}")
             if final is None or stats["raised"]:
                 continue
             if canon(final) not in expected:
@@ -412,6 +562,8 @@ class C20(Prop):
                     model="typed" if typed else "dict",
                     intruders=sorted(stats["intruders"]),
                     two_blocks_open=stats["two_blocks_open"],
+                    cancelled=stats["cancelled"],
+                    cancelled_waiter_behind_open_block=stats["cancel_queued_behind_block"],
                     observed=canon(final)[:300],
                     n_serial_results=len(expected),
                     a_serial_result=sorted(expected)[0][:300],
@@ -419,13 +571,19 @@ class C20(Prop):
         r.nontrivial = nontrivial
         r.classes.append(f"tasks_{len(tasks)}")
         r.classes.append("model:typed" if typed else "model:dict")
-        if len(expected) > 1:
+        if len(expected_all_done) > 1:
             r.classes.append("order_revealing(>1 serial result)")
+        if any(op.get("cx") for t in tasks for op in t):
+            r.classes.append("has_cancellation")
+        if case.get("hold"):
+            r.classes.append("gates_held_in_virtual_time")
         kinds = {op["k"] for t in tasks for op in t}
         for k in sorted(kinds):
             r.classes.append(f"has_{k}")
         if any(op["k"] == "edit" and any(su[0] == "g" for su in op.get("sus", [])) for t in tasks for op in t):
             r.classes.append("gate_suspension")
+        if any(op["k"] == "edit" and any(su[0] == "t" for su in op.get("sus", [])) for t in tasks for op in t):
+            r.classes.append("timed_suspension")
         return r
 
 
